@@ -508,4 +508,188 @@ theorem strndupOrig_witness :
     strndupOrig (fun m _ => some (m, 64)) (ofBufs [(8, [0x7a#8]), (64, [0#8, 0#8])]) 8 1 10 = none := by
   decide
 
+
+/-! ### strspn / strcspn / strpbrk — `A` is the set argument (a C string) -/
+
+/-- strspn: length of the longest prefix `q` consisting of bytes of `A`; `x` is
+the byte that ends it (the terminator or a byte not in `A`) -/
+theorem strspn_spec (m : Mem) (s accept : Nat) (A q : List Byte) (x : Byte) (fuel : Nat)
+    (hA : CStr m accept A) (h : Holds m s (q ++ [x])) (h0 : 0#8 ∉ q) (hq : ∀ y ∈ q, y ∈ A)
+    (hx : x = 0#8 ∨ x ∉ A) (hf : A.length < fuel) (hg : q.length < fuel) :
+    strspn m s accept fuel = some q.length := by
+  simpa [strspn] using strspnLoop_spec m A accept fuel hA hf q x s fuel 0 h h0 hq hx hg
+
+/-- strcspn: length of the longest prefix `q` free of bytes of `R` -/
+theorem strcspn_spec (m : Mem) (s reject : Nat) (R q : List Byte) (x : Byte) (fuel : Nat)
+    (hR : CStr m reject R) (h : Holds m s (q ++ [x])) (h0 : 0#8 ∉ q) (hq : ∀ y ∈ q, y ∉ R)
+    (hx : x = 0#8 ∨ x ∈ R) (hf : R.length < fuel) (hg : q.length < fuel) :
+    strcspn m s reject fuel = some q.length := by
+  simpa [strcspn] using strcspnLoop_spec m R reject fuel hR hf q x s fuel 0 h h0 hq hx hg
+
+/-- strpbrk: pointer to the first byte of `s1` that is in `A` -/
+theorem strpbrk_found (m : Mem) (s1 s2 : Nat) (A q : List Byte) (x : Byte) (fuel : Nat)
+    (hA : CStr m s2 A) (h : Holds m s1 (q ++ [x])) (h0 : 0#8 ∉ q) (hq : ∀ y ∈ q, y ∉ A) (hx : x ∈ A)
+    (hf : A.length < fuel) (hg : q.length < fuel) :
+    strpbrk m s1 s2 fuel = some (some (s1 + q.length)) := by
+  have hx0 : x ≠ 0#8 := fun e => hA.2 (e ▸ hx)
+  have hfirst : ∃ b, m s1 = some b ∧ b ≠ 0#8 := by
+    cases q with
+    | nil => simp only [List.nil_append, holds_cons] at h; exact ⟨x, h.1, hx0⟩
+    | cons b q =>
+      simp only [List.cons_append, holds_cons] at h
+      exact ⟨b, h.1, fun e => h0 (by simp [e])⟩
+  obtain ⟨b, hb, hb0⟩ := hfirst
+  -- the initial `c = s2` is only looked at when the loop body never ran; any cell holding 0 will do
+  have hnul : m (s2 + A.length) = some 0#8 := by
+    have := (holds_append.mp hA.1).2; rw [holds_cons] at this; exact this.1
+  cases q with
+  | nil =>
+    obtain ⟨g, rfl⟩ : ∃ k, fuel = k + 1 := ⟨fuel - 1, by omega⟩
+    obtain ⟨c, e, hc⟩ := pbrkInner_mem m x A s2 (g + 1) hA hx hf
+    simp only [List.nil_append, holds_cons] at h
+    simp [strpbrk, h.1, hx0, pbrkOuter, e, hc]
+  | cons b' q =>
+    obtain ⟨g, rfl⟩ : ∃ k, fuel = k + 1 := ⟨fuel - 1, by omega⟩
+    simp only [List.cons_append, holds_cons] at h
+    have hb'0 : ¬ b' = 0#8 := fun e => h0 (by simp [e])
+    have hb'A : b' ∉ A := hq b' (by simp)
+    obtain ⟨c1, e1, hc1⟩ := pbrkInner_not_mem m b' A s2 (g + 1) hA hb'A hf
+    obtain ⟨c, e, hc⟩ := pbrkOuter_spec m A s2 (g + 1) hA hf q x (s1 + 1) g c1 h.2
+      (fun e => h0 (by simp [e])) (fun y hy => hq y (by simp [hy])) (Or.inr hx) hc1
+      (by simp at hg; omega)
+    rw [if_pos hx] at hc
+    simp [strpbrk, h.1, hb'0, pbrkOuter, e1, hc1, e, hc, hx0]
+    omega
+
+/-- strpbrk: no byte of `s1` is in `A` (or `s1` is empty) ⇒ NULL -/
+theorem strpbrk_absent (m : Mem) (s1 s2 : Nat) (A l : List Byte) (fuel : Nat)
+    (hA : CStr m s2 A) (h : CStr m s1 l) (hq : ∀ y ∈ l, y ∉ A)
+    (hf : A.length < fuel) (hg : l.length < fuel) :
+    strpbrk m s1 s2 fuel = some none := by
+  cases l with
+  | nil => simp [strpbrk, cstr_nil.mp h]
+  | cons b' q =>
+    obtain ⟨g, rfl⟩ : ∃ k, fuel = k + 1 := ⟨fuel - 1, by omega⟩
+    obtain ⟨h1, h2, h3⟩ := cstr_cons.mp h
+    have hb'A : b' ∉ A := hq b' (by simp)
+    obtain ⟨c1, e1, hc1⟩ := pbrkInner_not_mem m b' A s2 (g + 1) hA hb'A hf
+    obtain ⟨c, e, hc⟩ := pbrkOuter_spec m A s2 (g + 1) hA hf q 0#8 (s1 + 1) g c1 h3.1
+      h3.2 (fun y hy => hq y (by simp [hy])) (Or.inl rfl) hc1 (by simp at hg; omega)
+    rw [if_neg hA.2] at hc
+    simp [strpbrk, h1, h2, pbrkOuter, e1, hc1, e, hc]
+
+/-! ### strtok_r (strtok is strtok_r on a static save pointer).  `D` is the
+delimiter string; `start` is where the search starts: `str`, or the saved
+pointer when `str == NULL`.  The string at `start` is `q ++ t ++ rest`: `q`
+leading delimiters, `t` the token. -/
+
+/-- token followed by a delimiter `d`: the token's address is returned, `d` is
+overwritten by NUL (so the token is a C string), the save pointer is the byte
+after it; nothing else is written -/
+theorem strtok_r_token (m : Mem) (str save : Option Nat) (start delim : Nat) (D q t r : List Byte)
+    (d : Byte) (fuel : Nat)
+    (hstart : tokStart str save = some start)
+    (hD : CStr m delim D) (h : CStr m start (q ++ t ++ d :: r)) (hq : ∀ y ∈ q, y ∈ D)
+    (ht : ∀ y ∈ t, y ∉ D) (htne : t ≠ []) (hd : d ∈ D)
+    (hf : D.length < fuel) (hg : (q ++ t ++ d :: r).length < fuel) :
+    ∃ m', strtok_r m str delim save fuel =
+        some (m', some (start + q.length + t.length + 1), some (start + q.length)) ∧
+      CStr m' (start + q.length) t ∧ SameOutside m m' (start + q.length + t.length) 1 := by
+  obtain ⟨t0, t', rfl⟩ : ∃ t0 t', t = t0 :: t' := by
+    cases t with
+    | nil => exact absurd rfl htne
+    | cons a b => exact ⟨a, b, rfl⟩
+  have h0 : 0#8 ∉ q ++ t0 :: t' ++ d :: r := h.2
+  have ht0 : t0 ≠ 0#8 := fun e => h0 (by simp [e])
+  have hd0 : d ≠ 0#8 := fun e => h0 (by simp [e])
+  have hA : Holds m start (q ++ [t0]) ∧ Holds m (start + (q.length + 1)) (t' ++ [d]) := by
+    have := h.1
+    rw [show q ++ t0 :: t' ++ d :: r ++ [0#8] = (q ++ [t0]) ++ ((t' ++ [d]) ++ (r ++ [0#8])) by simp,
+      holds_append] at this
+    refine ⟨this.1, ?_⟩
+    have h2 := this.2
+    rw [holds_append] at h2
+    simpa using h2.1
+  have e1 := tokSkip_spec m D delim fuel hD hf q t0 start fuel hA.1 (fun e => h0 (by simp [e])) hq
+    (Or.inr (ht t0 (by simp))) (by simp at hg; omega)
+  rw [if_neg ht0] at e1
+  have e2 := strcspnLoop_spec m D delim fuel hD hf t' d (start + (q.length + 1)) fuel 0 hA.2
+    (fun e => h0 (by simp [e])) (fun y hy => ht y (by simp [hy])) (Or.inr hd) (by simp at hg; omega)
+  have hsp : m (start + (q.length + 1) + t'.length) = some d := by
+    have := (holds_append.mp hA.2).2; rw [holds_cons] at this; exact this.1
+  have hmap : (m (start + (q.length + 1) + t'.length)).isSome := by simp [hsp]
+  refine ⟨upd m (start + (q.length + 1) + t'.length) 0#8, ?_, ?_, ?_⟩
+  · simp only [strtok_r, hstart, bind, Option.bind, e1, strcspn]
+    rw [show start + q.length + 1 = start + (q.length + 1) by omega, e2]
+    simp only [Nat.zero_add, rd_eq, hsp, hd0, ne_eq, not_false_eq_true, if_true,
+      BitVec.ofNat_eq_ofNat, wr_upd hmap]
+    simp; omega
+  · constructor
+    · have hm : Holds m (start + q.length) (t0 :: t') := by
+        have := h.1
+        rw [show q ++ t0 :: t' ++ d :: r ++ [0#8] = q ++ ((t0 :: t') ++ (d :: r ++ [0#8])) by simp,
+          holds_append, holds_append] at this
+        exact this.2.1
+      rw [holds_append]
+      refine ⟨holds_upd_outside _ hm (by simp; omega), ?_⟩
+      simp only [holds_cons, Holds.nil, and_true, List.length_cons]
+      rw [show start + q.length + (t'.length + 1) = start + (q.length + 1) + t'.length by omega]
+      simp
+    · intro e; exact h0 (by simp at e ⊢; rcases e with e | e <;> simp [e])
+  · intro j hj
+    simp only [List.length_cons] at hj
+    exact upd_other _ _ (by omega)
+
+/-- the token runs to the end of the string: memory untouched, the save pointer
+rests on the terminator (later calls return NULL) -/
+theorem strtok_r_last_token (m : Mem) (str save : Option Nat) (start delim : Nat) (D q t : List Byte)
+    (fuel : Nat) (hstart : tokStart str save = some start)
+    (hD : CStr m delim D) (h : CStr m start (q ++ t)) (hq : ∀ y ∈ q, y ∈ D)
+    (ht : ∀ y ∈ t, y ∉ D) (htne : t ≠ [])
+    (hf : D.length < fuel) (hg : (q ++ t).length < fuel) :
+    strtok_r m str delim save fuel =
+      some (m, some (start + q.length + t.length), some (start + q.length)) := by
+  obtain ⟨t0, t', rfl⟩ : ∃ t0 t', t = t0 :: t' := by
+    cases t with
+    | nil => exact absurd rfl htne
+    | cons a b => exact ⟨a, b, rfl⟩
+  have h0 : 0#8 ∉ q ++ t0 :: t' := h.2
+  have ht0 : t0 ≠ 0#8 := fun e => h0 (by simp [e])
+  have hA : Holds m start (q ++ [t0]) ∧ Holds m (start + (q.length + 1)) (t' ++ [0#8]) := by
+    have := h.1
+    rw [show q ++ t0 :: t' ++ [0#8] = (q ++ [t0]) ++ (t' ++ [0#8]) by simp, holds_append] at this
+    simpa using this
+  have e1 := tokSkip_spec m D delim fuel hD hf q t0 start fuel hA.1 (fun e => h0 (by simp [e])) hq
+    (Or.inr (ht t0 (by simp))) (by simp at hg; omega)
+  rw [if_neg ht0] at e1
+  have e2 := strcspnLoop_spec m D delim fuel hD hf t' 0#8 (start + (q.length + 1)) fuel 0 hA.2
+    (fun e => h0 (by simp [e])) (fun y hy => ht y (by simp [hy])) (Or.inl rfl) (by simp at hg; omega)
+  have hsp : m (start + (q.length + 1) + t'.length) = some 0#8 := by
+    have := (holds_append.mp hA.2).2; rw [holds_cons] at this; exact this.1
+  simp only [strtok_r, hstart, bind, Option.bind, e1, strcspn]
+  rw [show start + q.length + 1 = start + (q.length + 1) by omega, e2]
+  simp only [Nat.zero_add, rd_eq, hsp]
+  simp; omega
+
+/-- only delimiters left (or the empty string): NULL, and the save pointer is
+moved to the terminator (`fix: strtok_r stores the save pointer`) -/
+theorem strtok_r_no_token (m : Mem) (str save : Option Nat) (start delim : Nat) (D q : List Byte)
+    (fuel : Nat) (hstart : tokStart str save = some start)
+    (hD : CStr m delim D) (h : CStr m start q) (hq : ∀ y ∈ q, y ∈ D)
+    (hf : D.length < fuel) (hg : q.length < fuel) :
+    strtok_r m str delim save fuel = some (m, some (start + q.length), none) := by
+  have e1 := tokSkip_spec m D delim fuel hD hf q 0#8 start fuel h.1 h.2 hq (Or.inl rfl) hg
+  simp only [strtok_r, hstart, bind, Option.bind, e1]
+  simp
+
+/-- `str == NULL` and nothing saved: NULL without any access -/
+theorem strtok_r_null (m : Mem) (delim fuel : Nat) :
+    strtok_r m none delim none fuel = some (m, none, none) := rfl
+
+/-- historical (before the fix): after "no token" the save pointer kept its old
+value — here it stays NULL-less stale `some 9` instead of moving to the terminator -/
+theorem strtok_rOrig_witness :
+    (strtok_rOrig (ofBufs [(8, [44#8, 0#8]), (16, [44#8, 0#8])]) (some 8) 16 (some 99) 10).map (·.2.1)
+      = some (some 99) := by decide
+
 end Igris.C08
